@@ -131,23 +131,36 @@ def run_impl(case, run):
     try:
         task_results, fps = build_task_results(case)
 
+        again = []
+
         def tasks():
-            res = stats.TestStatsTasks(name='s', task_results=task_results).evaluate()
+            test = stats.TestStatsTasks(name='s', task_results=task_results)
+            first = test.evaluate()
+            snap = dump_classify(first.classify, fps)
+            res = test.evaluate()              # the same test object once more: what is reported is the second result
             out['tasks'] = dump_classify(res.classify, fps)
             out['tasksBool'] = bool(res)
+            if snap != out['tasks'] or dump_classify(first.classify, fps) != snap:
+                again.append('tasks')
 
         def tests():
-            res = stats.TestStatsTests(name='s', task_results=task_results).evaluate()
+            test = stats.TestStatsTests(name='s', task_results=task_results)
+            first = test.evaluate()
+            snap = dump_classify(first.classify, fps)
+            res = test.evaluate()
             out['tests'] = dump_classify(res.classify, fps)
             out['testsBool'] = bool(res)
+            if snap != out['tests'] or dump_classify(first.classify, fps) != snap:
+                again.append('tests')
 
         def bylabels():
             if case['byLabels'] is None:
                 out['byLabels'] = None
                 return
             try:
-                res = stats.TestStatsTestsByLabels(name='s', task_results=task_results,
-                                                   by_labels=tuple(case['byLabels'])).evaluate()
+                test = stats.TestStatsTestsByLabels(name='s', task_results=task_results, by_labels=tuple(case['byLabels']))
+                test.evaluate()
+                res = test.evaluate()
                 out['byLabels'] = {
                     'rows': [[[f'a{VALUES.index(v)}' for v in row['labels']], row['OK'], row['KO'], row['total']]
                              for row in res.classify],
@@ -161,6 +174,7 @@ def run_impl(case, run):
         order = [[0, 1, 2], [2, 1, 0], [1, 2, 0], [2, 0, 1], [0, 2, 1], [1, 0, 2]][k]
         for i in order:
             steps[i]()
+        out['again_differs'] = again
     except Exception as exc:  # pylint: disable=broad-except
         out['error'] = f'{type(exc).__name__}: {exc}'[:300]
     return out
@@ -183,6 +197,7 @@ def run_model(case, driver, run):
 
 def canon(obs):
     obs = copy.deepcopy(obs)
+    obs.pop('again_differs', None)       # harness-side observation, not part of the model
     byl = obs.get('byLabels')
     if isinstance(byl, dict):
         order = sorted(range(len(byl['rows'])), key=lambda i: byl['rows'][i])
@@ -203,6 +218,9 @@ def oracle(case, impl, run):
         return [('no_unexpected_exception', impl['error'])]
     tasks = case['tasks']
     run.count(f'ntasks={min(len(tasks), 10)}' + ('+' if len(tasks) > 10 else ''))
+    for which in impl.get('again_differs', []):
+        fails.append(('history_independent', f'a second evaluate() on the same {which} summary object gives another result, or '
+                      'changes the result returned by the first one'))
     # tasks by status
     cls = {k: v for k, v in impl['tasks']}
     if len(cls) != len(impl['tasks']):
